@@ -280,10 +280,11 @@ class CFG:
             n = getattr(n, '_parent', None)
         return []
 
-    def reach(self, srcs, avoid=(), labels=None, include_src=False):
+    def reach(self, srcs, avoid=(), labels=None, include_src=False, no_exc_from=()):
         """Nodes reachable from srcs along edges with label in labels, never
         entering a node in ``avoid``."""
         avoid = set(avoid)
+        no_exc_from = set(no_exc_from)
         seen = set()
         stack = []
         for s in srcs:
@@ -293,12 +294,14 @@ class CFG:
                     seen.add(s)
             else:
                 for b, l in self.succ[s]:
-                    if (labels is None or l in labels) and b not in avoid and b not in seen:
+                    if (labels is None or l in labels) and b not in avoid and b not in seen and not (l == 'exc' and s in no_exc_from):
                         seen.add(b)
                         stack.append(b)
         while stack:
             a = stack.pop()
             for b, l in self.succ[a]:
+                if l == 'exc' and a in no_exc_from:
+                    continue
                 if (labels is None or l in labels) and b not in avoid and b not in seen:
                     seen.add(b)
                     stack.append(b)
